@@ -3,6 +3,16 @@ BASE_NOTE = ("Trusted: rustc nightly 1.97 front end (type check, MIR constructio
              "clauses only; the behavioural statement over all inputs is not proved. Host configuration only (no wasm32 cfg arms).")
 
 CLAIMS = {
+ "C06": ("resolved cargo feature check (serde_json float_roundtrip) + match-table bijection over the four value<->JSON conversion functions + HIR guard analysis of the input-object loop",
+         "Exhaustive static decision of: JSON text is parsed by serde_json built with float_roundtrip and without arbitrary_precision (R1); from_json/to_json/from_value/to_value preserve the value kind arm by arm, compose to the identity on the six data kinds, "
+         "recurse with the same function and are lossy only on the number arm (R2); records are IndexMap end to end and the outputs map handed to serde_json is an IndexMap (R3); every member of an input object is inserted, conditional only on its own conversion (R4); "
+         "the reserved function-object key is one literal (R5). serde_json's escaping and ryu's printing are trusted, not decided.",
+         BASE_NOTE, "DESIGN.md §4 C06"),
+ "C16": ("HIR lint of every number-to-text / text-to-number site (format-spec facts from the expanded AST, guards by lexical dominance) + grammar/number-branch table agreement + cargo feature check",
+         "Exhaustive static decision of: every number-to-text site on the exact paths (stringify non-display branch, to_string, JSON output, three function-source emitters) uses f64 Display/LowerExp without precision or a precision-0 format dominated by fract() == 0 (R1); "
+         "JSON number input is correctly rounded by configuration (R2); each alternative of the grammar's number rule has a conversion branch with the same sign/prefix set, matching radix and sign table, underscores removed, and decimal text / to_number go through <f64 as FromStr> with no arithmetic on the result (R3). "
+         "Correct rounding inside std and ryu is trusted.",
+         BASE_NOTE, "DESIGN.md §4 C16"),
  "C10": ("table agreement (const precedence table, Pratt registration order, AST-builder match arms, grammar alternatives) + structural PEG analyses (ordered-choice shadowing, keyword guards, atomicity cascade)",
          "Exhaustive static decision of: the effective binding order (PRECEDENCE_TABLE + the registration algorithm read off build_pratt_parser) equals the documented level list for all 26 binary, 4 prefix and 4 postfix operators (R1); "
          "grammar alternatives = table = registrations = builder arms with agreeing (Rule, BinaryOp) pairs and documented tokens (R2); no operator literal is shadowed by an earlier alternative or by a postfix literal without look-ahead (R3); "
